@@ -2068,9 +2068,16 @@ class Graph:
             pulse.sources = [names[s] if s in names else s for s in pulse.sources]
             if pulse.dest in names:
                 pulse.dest = names[pulse.dest]
+        # The renamed graph must still be a valid graph.
+        for deme in graph.demes:
+            if not isinstance(deme.name, str):
+                raise TypeError(f"deme name {deme.name!r} is not a string")
+            valid_deme_name(None, None, deme.name)
         # Rebuild the name index: updating it key by key loses entries when a
         # new name is also an old name (e.g. swapping two names).
         graph._deme_map = {deme.name: deme for deme in graph.demes}
+        if len(graph._deme_map) != len(graph.demes):
+            raise ValueError("deme names are not unique after renaming")
         return graph
 
     @classmethod
